@@ -2,6 +2,7 @@ package props
 
 import (
 	"fmt"
+	"go/types"
 	"sort"
 	"strings"
 
@@ -323,16 +324,123 @@ func (r *Run) checkCurveTables(P string) {
 		"if signer and verifier disagree on the digest for a curve, every signature on that curve is rejected at resolution although intake accepted the request", fmt.Sprint(st), strings.Join(det, "; ")+" "+prob+fmt.Sprintf(" table=%v", st))
 	// signer pads r and s to the same size = ceil(bits/8)
 	if f := r.fn(P, pkgECSigner, "Signer.Sign"); f != nil {
-		calls := r.callsIn(f, "copyPadded")
-		ok := len(calls) == 2 && calls[0].Common().Args[1] == calls[1].Common().Args[1]
+		// the two halves of the signature: each is a padding helper's result (a module function taking the bytes and one
+		// size) or, when that helper has been inlined, a fresh make([]byte, size) that the bytes are copied into
 		ff := r.E.Facts(f, core.Ctx{})
-		det := ""
-		if len(calls) == 2 {
-			t0, t1 := ff.TB.Of(calls[0].Common().Args[0]).String(), ff.TB.Of(calls[1].Common().Args[0]).String()
-			det = t0 + " | " + t1
-			ok = ok && strings.Contains(t0, "Int).Bytes(") && strings.Contains(t1, "Int).Bytes(") && t0 != t1
+		type half struct {
+			size ssa.Value
+			src  string
 		}
-		r.R.Check(ok, P+".tables.signer.pad", "E13: signature = pad(r, k) ‖ pad(s, k) with one k", core.FuncName(f), r.where(f), "unequal or missing padding yields signatures the fixed-size verifier rejects for ~1/128 of keys/messages", det, "padding calls: "+det)
+		var halves []half
+		stripInt := func(v ssa.Value) ssa.Value {
+			for i := 0; i < 4; i++ {
+				switch x := v.(type) {
+				case *ssa.Convert:
+					v = x.X
+				case *ssa.ChangeType:
+					v = x.X
+				default:
+					return v
+				}
+			}
+			return v
+		}
+		for _, b := range f.Blocks {
+			for _, ins := range b.Instrs {
+				switch x := ins.(type) {
+				case *ssa.Call:
+					callee := x.Common().StaticCallee()
+					if callee == nil || callee.Pkg != f.Pkg || !r.P.IsSubject(callee) {
+						continue
+					}
+					var size ssa.Value
+					src := ""
+					nInt := 0
+					for _, a := range x.Common().Args {
+						if bt, isB := a.Type().Underlying().(*types.Basic); isB && bt.Info()&types.IsInteger != 0 {
+							size = stripInt(a)
+							nInt++
+						} else if t := ff.TB.Of(a).String(); strings.Contains(t, "Int).Bytes(") {
+							src = t
+						}
+					}
+					if nInt == 1 && src != "" {
+						halves = append(halves, half{size, src})
+					}
+				case *ssa.MakeSlice:
+					src := ""
+					for _, c := range r.callsIn(f, "builtin:copy") {
+						if len(c.Common().Args) != 2 {
+							continue
+						}
+						rooted := false
+						for _, root := range memRoots(c.Common().Args[0]) {
+							if root == ssa.Value(x) {
+								rooted = true
+							}
+						}
+						if t := ff.TB.Of(c.Common().Args[1]).String(); rooted && strings.Contains(t, "Int).Bytes(") {
+							src = t
+						}
+					}
+					if src != "" {
+						halves = append(halves, half{stripInt(x.Len), src})
+					}
+				}
+			}
+		}
+		type callShim struct{ size ssa.Value }
+		var calls []callShim
+		for _, h := range halves {
+			calls = append(calls, callShim{h.size})
+		}
+		ok := len(halves) == 2 && (halves[0].size == halves[1].size || ff.TB.Of(halves[0].size).String() == ff.TB.Of(halves[1].size).String()) && halves[0].src != halves[1].src
+		det := ""
+		for _, h := range halves {
+			det += short(h.src, 60) + " padded to " + short(ff.TB.Of(h.size).String(), 60) + " | "
+		}
+		r.R.Check(ok, P+".tables.signer.pad", "E13: signature = pad(r, k) ‖ pad(s, k) with one k", core.FuncName(f), r.where(f), "unequal or missing padding yields signatures the fixed-size verifier rejects for ~1/128 of keys/messages", det, fmt.Sprintf("%d padded half/halves: %s", len(halves), det))
+		// k = ⌈bits/8⌉ of the key's own curve: bits/8, one more when bits is not a multiple of 8 (or (bits+7)/8)
+		if len(calls) == 2 {
+			okK, kdet := false, ""
+			size := calls[0].size
+			bitsOK := func(t string) bool {
+				return strings.HasSuffix(t, ".Params().BitSize") || strings.Contains(t, "Curve.Params(") || strings.Contains(t, "Curve)")
+			}
+			switch sv := size.(type) {
+			case *ssa.Phi:
+				nBase, nUp := 0, 0
+				good := true
+				for i, e := range sv.Edges {
+					et := ff.TB.Of(e)
+					set := phiEdgeFacts(ff, sv, i)
+					b := core.Bind{}
+					switch {
+					case core.MatchTerm("((?b / 8) + 1)", et, b):
+						nUp++
+						if !bitsOK(b["b"].String()) || !(hasBound(set, "cmp((?b % 8) > 0)", b) || hasBound(set, "cmp((?b % 8) != 0)", b)) {
+							good = false
+						}
+					case core.MatchTerm("(?b / 8)", et, b):
+						nBase++
+						if !bitsOK(b["b"].String()) || !(hasBound(set, "cmp((?b % 8) <= 0)", b) || hasBound(set, "cmp((?b % 8) == 0)", b)) {
+							good = false
+						}
+					default:
+						good = false
+					}
+					kdet += et.String() + " | "
+				}
+				okK = good && nBase == 1 && nUp == 1
+			default:
+				t := ff.TB.Of(size)
+				b := core.Bind{}
+				kdet = t.String()
+				okK = core.MatchTerm("((?b + 7) / 8)", t, b) && bitsOK(b["b"].String())
+			}
+			r.R.Check(okK, P+".tables.signer.size", "E3 normal form: the padding size is ⌈BitSize/8⌉ of the key's curve — BitSize/8, plus one exactly when BitSize is not a multiple of 8", core.FuncName(f), r.where(f),
+				"P-521 has 521 bits: with 65 instead of 66 bytes per half every P-521 signature has the wrong length and is rejected at resolution although intake accepted the request", short(kdet, 200), "padding size: "+short(kdet, 300))
+		}
 	}
 }
 
@@ -568,4 +676,14 @@ func (r *Run) checkJWKPreParseDecoder(P string) {
 	okPkg := len(ps) == 1 && strings.Contains(ps[0], "go-jose")
 	r.R.Check(okPkg && n >= 2, P+".jwk.decoder", "sibling agreement: the JWK pre-parse and the delegation to the JOSE library decode with the same (case-sensitive) JSON package of that library", core.FuncName(f), r.where(f),
 		"with a case-insensitive pre-parse, {\"x\":<31 bytes>,\"X\":<32 bytes>} passes the length test on \"X\" while the library builds the key from \"x\"", strings.Join(ps, ", "), "decoders used: "+strings.Join(ps, ", "))
+}
+
+// hasBound: the set has a fact matching pat under the given bindings.
+func hasBound(set core.FactSet, pat string, b core.Bind) bool {
+	nb := core.Bind{}
+	for k, v := range b {
+		nb[k] = v
+	}
+	_, ok := core.MatchAll(set, []string{pat}, nb)
+	return ok
 }
